@@ -14,7 +14,13 @@ import (
 )
 
 func main() {
-	syscall.Umask(0)
+	// a restrictive umask: a mode that the code under test leaves to mkdir/open/mknod instead of setting it
+	// explicitly then differs from the source's (VERIF_UMASK overrides, octal)
+	um := 0o027
+	if v := os.Getenv("VERIF_UMASK"); v != "" {
+		fmt.Sscanf(v, "%o", &um)
+	}
+	syscall.Umask(um)
 	if len(os.Args) >= 3 && os.Args[1] == "replay" {
 		b, err := os.ReadFile(os.Args[2])
 		if err != nil {
